@@ -427,6 +427,18 @@ fn tape_shrink(
     }
 }
 
+/// `vcheck gen <id> <tier> <idx>`: print the generated case (debugging aid)
+pub fn gen_main(p: &'static dyn Property, tier: Tier, idx: u64) -> i32 {
+    let seed = seed_from_env();
+    let rng = TestRng::from_seed(RngAlgorithm::ChaCha, &case_seed(seed, p.id(), idx));
+    let mut runner = TestRunner::new_with_rng(Config { failure_persistence: None, ..Config::default() }, rng);
+    let len = p.tape_len(tier);
+    let strat = proptest::collection::vec(proptest::num::u32::ANY, len..=len);
+    let tree = strat.new_tree(&mut runner).expect("tape tree");
+    println!("{{\"property\":\"{}\",\"case\":{}}}", p.id(), gen_case(p, &tree.current(), tier));
+    0
+}
+
 // ---------------------------------------------------------------------------------------
 // single case in a fresh process:  vcheck one <id> <casefile> <outfile>
 
